@@ -31,6 +31,10 @@ type FeatureSpec struct {
 	Loc                                       insdc.Node
 	// EmptySubs: the leaves of the location tree carry an empty, non-nil SubLocations slice
 	EmptySubs bool
+	// Wrap: the location tree is put under this many plain nodes (neither join nor complement, no range of
+	// their own, one sub-location): a tree no file parser produces but a poly.Location value can hold; its
+	// feature sequence is that of the inner tree.
+	Wrap int
 }
 
 type Case struct {
@@ -68,6 +72,9 @@ func build(c Case) poly.Sequence {
 			Sequence: f.Sequence, SequenceHash: f.SequenceHash, Description: f.Description, SequenceHashFunction: f.SequenceHashFunction, SequenceLocation: f.Loc.Structure()}
 		if f.EmptySubs {
 			ft.SequenceLocation = emptyLeaves(ft.SequenceLocation)
+		}
+		for i := 0; i < f.Wrap; i++ {
+			ft.SequenceLocation = poly.Location{SubLocations: []poly.Location{ft.SequenceLocation}}
 		}
 		if !f.AttributesNil {
 			ft.Attributes = map[string]string{}
@@ -268,6 +275,9 @@ func labels(c Case) []string {
 			if f.EmptySubs {
 				set["empty non-nil sub-location lists"] = true
 			}
+			if f.Wrap > 0 {
+				set["location under a plain single-child node"] = true
+			}
 			if f.AttributesNil {
 				set["attributes nil"] = true
 			} else if len(f.Attributes) == 0 {
@@ -375,6 +385,9 @@ func genValue(t *rapid.T) Case {
 		f.AttributesNil = len(f.Attributes) == 0 && rapid.Bool().Draw(t, fn+"_attr_nil")
 		f.Loc = insdc.Draw(t, fn+"_loc", n, rapid.IntRange(0, 4).Draw(t, fn+"_loc_depth"))
 		f.EmptySubs = rapid.IntRange(0, 3).Draw(t, fn+"_empty_sublocations") == 0
+		if rapid.IntRange(0, 5).Draw(t, fn+"_wrapped") == 0 {
+			f.Wrap = rapid.IntRange(1, 2).Draw(t, fn+"_wrap_levels")
+		}
 		c.Features = append(c.Features, f)
 	}
 	return c
